@@ -3,8 +3,12 @@
 package glue
 
 import (
+	"runtime"
 	"sync"
+	"sync/atomic"
 	"time"
+
+	"k8s.io/klog/v2"
 
 	"github.com/vmware/go-ipfix/pkg/collector"
 )
@@ -14,11 +18,11 @@ import (
 // and a started callback parks inside its first Now() call until the harness releases it. All
 // other actions run on one harness goroutine, so a history is a total order and replays exactly.
 type HClock struct {
-	mu      sync.Mutex
-	now     time.Time
-	Timers  []*HTimer
-	Pending []*HCallback // fired, not yet started
-	InFlight *HCallback  // started, parked in Now() (or running to completion)
+	mu       sync.Mutex
+	now      time.Time
+	Timers   []*HTimer
+	Pending  []*HCallback // fired, not yet started
+	InFlight *HCallback   // started, parked in Now() (or running to completion)
 	// Tag is attached to timers created while it is set (the harness sets it to the template
 	// key being processed).
 	Tag any
@@ -26,6 +30,12 @@ type HClock struct {
 	expectNow bool
 	reached   chan struct{}
 	release   chan struct{}
+
+	// LogYield: a log line written by the in-flight callback is a yield point too (see LogWriter):
+	// the callback parks inside the write until Step or Finish. free is set by Finish: the
+	// callback then runs to its end without parking again.
+	LogYield bool
+	free     bool
 }
 
 // HTimer states.
@@ -47,10 +57,13 @@ type HTimer struct {
 
 // HCallback is one queued or running execution of a timer's function.
 type HCallback struct {
-	Timer   *HTimer
-	SawNow  time.Time
-	Parked  bool
-	done    chan struct{}
+	Timer  *HTimer
+	SawNow time.Time
+	Parked bool // the callback read the clock (SawNow is what it saw)
+	// AtLog: the callback is parked inside a log write (LogYield), not in Now()
+	AtLog bool
+	gid   int64
+	done  chan struct{}
 }
 
 // NewHClock starts the clock at t.
@@ -60,11 +73,16 @@ func NewHClock(t time.Time) *HClock { return &HClock{now: t} }
 // started parks until Finish.
 func (c *HClock) Now() time.Time {
 	c.mu.Lock()
-	if c.expectNow {
+	if c.expectNow && c.InFlight != nil && c.InFlight.gid == curGID() { // the callback's own first clock read
 		c.expectNow = false
 		cb := c.InFlight
 		cb.SawNow, cb.Parked = c.now, true
 		v := c.now
+		if c.free { // released by Finish while parked at an earlier yield point: run on
+			c.mu.Unlock()
+			return v
+		}
+		cb.AtLog = false
 		reached, release := c.reached, c.release
 		c.mu.Unlock()
 		close(reached)
@@ -74,6 +92,58 @@ func (c *HClock) Now() time.Time {
 	v := c.now
 	c.mu.Unlock()
 	return v
+}
+
+// logYield is called by the log writer for every line: when the writing goroutine is the in-flight
+// callback (and LogYield is on, and Finish has not released it yet) it parks here.
+func (c *HClock) logYield() {
+	c.mu.Lock()
+	cb := c.InFlight
+	if !c.LogYield || cb == nil || c.free || cb.gid != curGID() {
+		c.mu.Unlock()
+		return
+	}
+	cb.AtLog = true
+	reached, release := c.reached, c.release
+	c.mu.Unlock()
+	close(reached)
+	<-release
+}
+
+// curGID returns the id of the calling goroutine (parsed from its stack header; used only to tell
+// the callback goroutine from the harness goroutine).
+func curGID() int64 {
+	var buf [64]byte
+	n := runtime.Stack(buf[:], false)
+	var id int64
+	for _, ch := range buf[len("goroutine "):n] {
+		if ch < '0' || ch > '9' {
+			break
+		}
+		id = id*10 + int64(ch-'0')
+	}
+	return id
+}
+
+// currentClock is the clock whose callbacks park at log lines (one case runs at a time).
+var currentClock atomic.Pointer[HClock]
+
+type yieldWriter struct{}
+
+func (yieldWriter) Write(p []byte) (int, error) {
+	if c := currentClock.Load(); c != nil {
+		c.logYield()
+	}
+	return len(p), nil
+}
+
+// YieldOnLogs routes the library's log output through a writer that makes every log line of c's
+// in-flight callback a yield point (c.LogYield must be set too). Pass nil to detach. Note that the
+// logging package holds its own lock during the write: the harness goroutine must not log while a
+// callback is parked there (strict-mode decoding does not).
+func YieldOnLogs(c *HClock) {
+	currentClock.Store(c)
+	klog.SetOutput(yieldWriter{})
 }
 
 // Time returns the current virtual time (never parks).
@@ -140,14 +210,18 @@ func (c *HClock) Start(i int, limit time.Duration) bool {
 	cb := c.Pending[i]
 	c.Pending = append(c.Pending[:i:i], c.Pending[i+1:]...)
 	cb.done = make(chan struct{})
-	c.InFlight, c.expectNow = cb, true
+	c.InFlight, c.expectNow, c.free = cb, true, false
 	c.reached, c.release = make(chan struct{}), make(chan struct{})
 	reached := c.reached
-	c.mu.Unlock()
+	started := make(chan struct{})
 	go func() {
 		defer close(cb.done)
+		cb.gid = curGID()
+		close(started)
 		cb.Timer.f()
 	}()
+	<-started
+	c.mu.Unlock()
 	select {
 	case <-reached:
 		return true
@@ -161,6 +235,33 @@ func (c *HClock) Start(i int, limit time.Duration) bool {
 	}
 }
 
+// Step releases the parked callback until its next yield point (it parks again) or its end. It
+// reports false when neither happens within limit; done tells whether the callback returned.
+func (c *HClock) Step(limit time.Duration) (ok, done bool) {
+	c.mu.Lock()
+	cb := c.InFlight
+	if cb == nil {
+		c.mu.Unlock()
+		return true, true
+	}
+	release := c.release
+	c.reached, c.release = make(chan struct{}), make(chan struct{})
+	reached := c.reached
+	c.mu.Unlock()
+	close(release)
+	select {
+	case <-reached:
+		return true, false
+	case <-cb.done:
+		c.mu.Lock()
+		c.InFlight, c.expectNow = nil, false
+		c.mu.Unlock()
+		return true, true
+	case <-time.After(limit):
+		return false, false
+	}
+}
+
 // Finish releases the parked callback and waits until it has returned.
 func (c *HClock) Finish(limit time.Duration) bool {
 	c.mu.Lock()
@@ -169,6 +270,7 @@ func (c *HClock) Finish(limit time.Duration) bool {
 		c.mu.Unlock()
 		return true
 	}
+	c.free = true
 	release := c.release
 	c.mu.Unlock()
 	close(release)
